@@ -2,6 +2,7 @@
 from ..engine import *
 from ..codec import *
 from .codec_rules import three_way, V
+from ..analysis import term_sig, term_str, strip
 from .names import *
 
 P = "C11"
@@ -45,11 +46,53 @@ def r4(ctx):
     c09.panic_rule(ctx, P, "C11.R4", entries)
 
 
-RULES = [r123, r4]
+def r5(ctx):
+    """values of the node type that the crate itself builds from unchecked input are encodable and
+    decodable: (a) Node::new, which every decoder calls with the index read off the wire, calls
+    flat_tree's partial functions (parent, sibling, ...: they shift by depth + 1 / depth + 2) only
+    under `depth(index) < 62` — 2^64-1 is one of the varint boundaries C11 quantifies over (defect
+    D16); (b) Node::new_blank builds the 32-byte zero hash the codec's fixed 32 bytes stand for, not
+    a 2-byte one (defect D17)."""
+    rule = "C11.R5"
+    NEW, BLANK = "common::node::Node::new", "common::node::Node::new_blank"
+    fa = ctx.fn(NEW)
+    if need(ctx, P, rule, NEW, fa):
+        PARTIAL = ("parent", "sibling", "uncle", "children", "left_child", "right_child", "left_span", "right_span", "spans", "count", "offset", "index")
+        part = [(s_, t_) for s_, t_ in fa.calls() if (t_.get("callee") or "").startswith("flat_tree::") and (t_.get("callee") or "").split("::")[-1] in PARTIAL and "Iterator" not in (t_.get("callee") or "")]
+        guards = [(tr, o) for _, o, tr, fl in bool_switches(fa, lambda o: o[0] == "bin" and o[1] == "Lt" and strip(o[2])[0] == "call" and strip(o[2])[2] == "flat_tree::depth")]
+        bad = []
+        for s_, t_ in part:
+            arg = term_sig(strip(fa.arg_origin(s_, 0)))
+            ok_ = any(tr is not None and fa.dominates(tr, s_) and term_sig(strip(strip(o[2])[3][0])) == arg and (ev(ctx, o[3]) or 99) <= 62 for tr, o in guards)
+            if not ok_:
+                bad.append("%s(%s) at %s" % (t_["callee"], arg, loc(fa, s_)))
+        ctx.check(P, rule, "Node::new calls flat_tree's partial functions only for depths they are defined on", not bad, "%d call(s), each under depth(index) < 62" % len(part),
+                  "Node::new calls %s on the index it was given without a depth guard: decoding a node whose index has 62 or more trailing one-bits (2^64-1 is a varint boundary) panics in flat_tree (shift overflow) instead of yielding the value" % bad,
+                  key="C11|C11.R5|Node::new|partial flat_tree function")
+    fb = ctx.fn(BLANK)
+    if need(ctx, P, rule, BLANK, fb):
+        rets = [t for _, _, t in ret_assigns(fb)]
+        good = False
+        shown = None
+        if rets and is_agg(rets[0]):
+            h = strip(agg_field(rets[0], "hash"))
+            shown = term_str(h)[:60]
+            if h[0] == "call" and h[2].split("::")[-1] == "from_elem" and len(h[3]) == 2:
+                good = ev(ctx, h[3][0]) == 0 and ev(ctx, h[3][1]) == 32
+            elif is_agg(h) and h[1] == "array":
+                good = len(h[3]) == 32 and all(ev(ctx, o) == 0 for _, o in h[3])
+            elif h[0] == "repeat":
+                good = ev(ctx, h[1]) == 0 and str(h[2]) == "32"
+        ctx.check(P, rule, "Node::new_blank builds a 32-byte zero hash", good, "hash = vec![0; 32]",
+                  "Node::new_blank builds its hash as %s: the node announces 34 bytes but cannot be encoded (the codec writes the hash as 32 fixed bytes), and flush_nodes panics on it after a replayed truncation" % shown,
+                  key="C11|C11.R5|Node::new_blank|hash length")
+
+
+RULES = [r123, r4, r5]
 EXPLANATION = ("C11 (wire messages round-trip and follow the compact-encoding layout): for each of the eight protocol types decides, on the MIR of the three functions of its "
                "CompactEncoding impl (macro and hand-written forms alike), that encode writes the reference field sequence with the reference byte shapes (varint / length-prefixed bytes / "
                "32 fixed bytes / node list), that decode consumes the same shapes in the same order and puts the k-th value into the k-th encoded field, and that encoded_size sums exactly "
                "those fields plus a constant equal to the fixed bytes written (R1-R3); that every panic-capable construct reachable from the eight decode functions is discharged (R4, shared "
-               "engine with C09).")
+               "engine with C09); that Node::new calls flat_tree's partial functions only under a depth guard and Node::new_blank builds a 32-byte hash (R5).")
 NOT_DECIDED = "byte-level varint boundaries and length checks (inside the compact-encoding dependency); 'nothing left over' for nested decoders beyond shape agreement; equality of values (round-trip) as such."
 ASSUMPTIONS = ["compact_encoding's primitive encoders/decoders implement the compact-encoding spec and return Err on short input"]
